@@ -51,6 +51,9 @@ def plan(tier, seed):
         for item in ITEMS:
             for first in range(len(ALPHABET)):
                 cases.append(dict(key=f"history/{model}/{item}/first={first}", kind="history", model=model, item=item, first=first, depth=depth, seed=seed, cost=20))
+    # inhomogeneous plasticity (clamped end faces: yielding and elastic quadrature points in the same evaluation)
+    for first in range(len(ALPHABET)):
+        cases.append(dict(key=f"history/clamped/plasticity/first={first}", kind="history", model="clamped", item="plasticity", first=first, depth=depth, seed=seed, cost=40))
     for ramped in RAMPED[1:]:
         cases.append(dict(key=f"ramped/{ramped}", kind="ramped", ramped=ramped, seed=seed, depth=3, cost=10))
     return cases
@@ -123,7 +126,7 @@ def build(model, item):
     import felupe as fem
     import felupe.constitution as C
 
-    mesh = fem.Cube(n=2) if model == "1cell" else fem.Cube(a=(0, 0, 0), b=(2, 1, 1), n=(3, 2, 2))
+    mesh = fem.Cube(n=2) if model == "1cell" else (fem.Cube(a=(0, 0, 0), b=(2, 1, 1), n=(3, 2, 2)) if model == "2cell" else fem.Cube(a=(0, 0, 0), b=(1.5, 1, 1), n=(3, 3, 2)))
     region = fem.RegionHexahedron(mesh)
     field = fem.FieldContainer([fem.Field(region, dim=3)])
     base = None
@@ -141,7 +144,9 @@ def build(model, item):
         um = fem.Hyperelastic(C.finite_strain_viscoelastic, mu=1.0, eta=1.0, dtime=1.0, nstatevars=6) & C.Volumetric(bulk=5.0)
     body = fem.SolidBody(um, field)
     L = float(mesh.points[:, 0].max())
-    bounds, lc = fem.dof.uniaxial(field, clamped=False, move=0.0, axis=0, sym=True)
+    if model == "clamped":
+        L = 0.65 * L  # mean strain of the alphabet value A below the yield strain: only the stress concentrations yield
+    bounds, lc = fem.dof.uniaxial(field, clamped=(model == "clamped"), move=0.0, axis=0, sym=(model != "clamped"))
     return mesh, region, field, um, base, body, bounds, lc, L
 
 
@@ -155,6 +160,34 @@ def energy_of(item, um, base, F):
         Cg = np.einsum("ki...,kj...->ij...", F, F)
         return tr.function(C.neo_hooke, wrt=0, ntrax=2)(np.ascontiguousarray(Cg), mu=1.0)
     return None
+
+
+_REAL = {}
+
+
+def real_failure(model, item, scaled, maxiter):
+    """index of the first substep of this load history that the real Newton solver cannot solve on its own (plain loop of
+    newtonrhapson calls on a fresh body, no Step/Job, no poison item), or None; decides whether a missing result is a
+    genuine non-convergence of the input (the property speaks about converged substeps only) or a protocol violation"""
+    import felupe as fem
+
+    k = (model, item, tuple(scaled), maxiter)
+    if k not in _REAL:
+        mesh, region, field, um, base, body, bounds, lc, L = build(model, item)
+        out = None
+        for i, v in enumerate(scaled):
+            bounds["move"].update(v)
+            ext0 = fem.dof.apply(field, bounds, lc["dof0"])
+            try:
+                res = fem.newtonrhapson(items=[body], dof0=lc["dof0"], dof1=lc["dof1"], ext0=ext0, maxiter=maxiter, verbose=False)
+                ok = bool(res.success)
+            except Exception:  # noqa
+                ok = False
+            if not ok:
+                out = i
+                break
+        _REAL[k] = out
+    return _REAL[k]
 
 
 def run_history(case):
@@ -218,6 +251,14 @@ def run_history(case):
                     c.outcomes.add("real-increment-converged")
                 else:
                     fpos_eff = fpos
+                if len(got) < expect_ok and raised is not None and fkind != "real":
+                    # fewer results than the injected failures explain: is an earlier substep of this history beyond what the
+                    # real solver can solve at all (e.g. a single 15 % compression step of the two-cell viscoelastic column
+                    # diverges)?  Then that substep is the first failure of the history.
+                    rf = real_failure(model, item, scaled, 8)
+                    if rf is not None and rf == len(got):
+                        expect_ok, fpos_eff, fkind = rf, rf, "nonconvergence"
+                        c.outcomes.add("genuine-nonconvergence")
                 if len(got) != expect_ok:
                     c.bad(sub + "/results", "number of yielded results (one per converged substep, none after the first failure)", len(got), expect_ok)
                     continue
@@ -261,7 +302,7 @@ def run_history(case):
                         if e > 1e-9:
                             c.bad(sub + f"/commit{i}", "committed state after substep i must be the update at its converged iterate from the previous committed state", float(e), 0, 1e-9)
                 # canonical state + differential oracles (clean histories only)
-                if fpos is None:
+                if fpos_eff is None:
                     x = got[-1][2]
                     sv = committed[-1]
                     key = (round(vals[-1], 9), tuple(np.round(sv.ravel()[:8], 6)), tuple(np.round(x[:12], 6)))
@@ -313,6 +354,10 @@ def run_history(case):
                             f = np.sqrt((s * s).sum((0, 1))) - np.sqrt(2 / 3) * (sy_ + K_ * alpha)
                             if f.max() > 1e-9:
                                 c.bad(sub + f"/yield{i}", "yield condition f <= 0 after the update", float(f.max()), "<= 0", 1e-9)
+                            if (alpha > 1e-12).any() and (alpha <= 1e-12).any():
+                                c.outcomes.add("plastic-and-elastic-points-in-one-state")
+                            if (alpha < -1e-14).any():
+                                c.bad(sub + f"/alpha-negative{i}", "equivalent plastic strain must not be negative", float(alpha.min()), ">= 0")
                             if (alpha < np.asarray(committed[i])[0] - 1e-12).any():
                                 c.bad(sub + f"/alpha{i}", "equivalent plastic strain must not decrease", float((alpha - np.asarray(committed[i])[0]).min()), ">= 0")
     return c.result(dict(case=case["key"], histories=len(histories), example=[ALPHABET[i] for i in histories[-1]]))
